@@ -68,6 +68,12 @@ func (unpacker *RtpUnpackerAac) TryUnpackOne(list *RtpPacketList) (unpackedFlag 
 	b := p.Packet.Body()
 
 	aus := parseAu(b)
+	if len(aus) == 0 {
+		// 非法包，直接丢弃
+		list.Head.Next = p.Next
+		list.Size--
+		return true, p.Packet.Header.Seq
+	}
 
 	// 只有一个描述
 	if len(aus) == 1 {
@@ -177,9 +183,18 @@ func parseAu(b []byte) (ret []au) {
 	// TODO(chef): [fix] 解析b时，没有判断长度有效性 202207
 
 	// AU Header Section
+	if len(b) < 2 {
+		Log.Warnf("rtp packet size invalid. len(b)=%d", len(b))
+		return nil
+	}
+
 	var auHeadersLength uint32
 	auHeadersLength = uint32(b[0])<<8 + uint32(b[1])
 	auHeadersLength = (auHeadersLength + 7) / 8
+	if 2+auHeadersLength > uint32(len(b)) {
+		Log.Warnf("rtp packet size invalid. auHeadersLength=%d, len(b)=%d", auHeadersLength, len(b))
+		return nil
+	}
 
 	// TODO chef: 这里的2是写死的，正常是外部传入auSize和auIndex所占位数的和
 	const auHeaderSize = 2
@@ -208,6 +223,10 @@ func parseAu(b []byte) (ret []au) {
 	if (nbAuHeaders > 1 && pau != uint32(len(b))) ||
 		(nbAuHeaders == 1 && pau < uint32(len(b))) {
 		Log.Warnf("rtp packet size invalid. nbAuHeaders=%d, pau=%d, len(b)=%d, auHeadersLength=%d", nbAuHeaders, pau, len(b), auHeadersLength)
+		if nbAuHeaders > 1 && pau > uint32(len(b)) {
+			// 多个AU时，所有AU必须完整包含在这个包中
+			return nil
+		}
 	}
 
 	return
